@@ -1849,9 +1849,18 @@ def extended_search(rng, findings):
         for c, r in zip(CONTENTS, core.run_impl_cases(__name__, probe, workers=1)):
             n = len((r.get("recs") or [{}])[0].get("steps") or [])
             maxk[c] = min(MAXK, n + 1) if n else MAXK
+        # a save interrupted anywhere and done again unchanged, on top of each kind of good save
+        yield [_case(g, fn, _number([*setup, a, ["retry"], b]))
+               for g, fn in [(g, "default") for g in GRAPHS] + [("wf", "explicit"), ("wf", "dotted")]
+               for setup in ([["save", "ok"]], [["save", "pf"]], [])
+               for a in _alphabet(g, maxk) + _nf_alphabet(maxk) if a[0] in ("crash", "crashnf")
+               for b in (["reopen"], ["retry"])]
         for g, fn in [(g, "default") for g in GRAPHS] + [("wf", "explicit")]:
             al = _alphabet(g, maxk) + _nf_alphabet(maxk)
             yield [_case(g, fn, _number([a, b])) for a in al if a[0] in writes for b in al]
+        for fn, g in (("dotted", "wf"), ("dotted5", "fn")):
+            al = [x for x in _alphabet(g, maxk) if not (x[0] == "foreign" and len(x) == 3)] + _nb_alphabet()
+            yield [_case(g, fn, _number([a, b])) for a in al for b in al]
         both = _tree_alphabet() + _alphabet("wf", maxk)
         yield [_case("wf", "default", _number([a, b])) for a in both for b in both if _is_tree_op(a) or _is_tree_op(b)]
         for g in GRAPHS:
